@@ -71,6 +71,11 @@ func c09Check(e *core.Env, r *core.Rand, idx int64, d *gen.Out) {
 		return
 	}
 	w["printed"] = p1
+	if idx%25 == 3 {
+		if !cliAgrees(e, w, []string{"print", "--no-style", "--no-warn", f}, 1, "dark", "", obs.ClockAt(ref.Date{Y: 2024, M: 3, D: 15}, 600, 0), p1, false) {
+			return
+		}
+	}
 	// (a) accepted, (b) same records incl. notation
 	rs, _, errs := parser.NewSerialParser().Parse(p1)
 	if errs != nil {
